@@ -1,1 +1,20 @@
-PROP = {'suites': ['c05'], 'clauses': {1: 'a presentation other than the exact issued string (jti alone, forged or altered token) was accepted as a live access token', 2: 'an access token was accepted after its grant was revoked or invalidated by a replay of the code it came from, its token superseded by a refresh, or its lifetime elapsed', 3: 'a refresh token was accepted or reported active after the owning client revoked the grant'}, 'title': 'Only live, server-issued access tokens are ever accepted as access tokens', 'text': 'Theorems over the model: live_access_iff (for every reachable state of every history and every presented term, IntrospectionInfo - behind /introspect, TokenInfo and TokenInfoFromRequest - reports an active access token IFF the term is exactly an issued access-token string whose grant the token index still finds and whose lifetime has not elapsed), forged_never_live, jti_never_live, refresh_token_is_not_access, userinfo_needs_live_token (+ userinfo_token_id_is_classified), revoked_dead, other_client_cannot_revoke, token_index_unique. Correspondence: histories with issuance in both formats, refresh, revocation by owner/other client, code replay, ticks and presentation of exact / jti-only / seven kinds of forged strings at the three endpoints and two helpers, compared with the model; the monitor tracks, from the implementation trace alone, which tokens must be dead. Deterministic scenarios (scenarioAcceptorMatrix): the four acceptors x {live, lifetime elapsed while the grant lives on, access token revoked, refresh token revoked, superseded by a refresh with and without rotation, grant expired, code replayed} x {opaque, JWT} x storage flavour.', 'note': 'Theorems are about the hand-written model; JWS verification and the UUID/length-99 shape tests are modelled symbolically (the classification by shape is checked on concrete strings by the correspondence). live_access_iff assumes histories shorter than 2^34 operations (encoding of never-issued values). KNOWN FINDING K0 (see known_findings.json): revoking an already-expired access token answers 200 and leaves the refresh token of the grant working - the last sentence of the property fails for that input on the unchanged tree; the c05 suite replays it on the real provider and reports it as KNOWN-FINDING.', 'technique': 'Coq proof (equivalence over every reachable state, using the index-freshness invariant proved for every handler; per-request decision rules) tied to the code by differential correspondence; monitor on implementation traces', 'design_ref': 'DESIGN.md section 6, C05'}
+PROP = {'suites': ['c05'],
+ 'clauses': {1: 'a presentation other than the exact issued string (jti alone, forged or altered token) was accepted as a live access token',
+             2: 'an access token was accepted after its grant was revoked or invalidated by a replay of the code it came from, its token superseded by a refresh, or its lifetime elapsed',
+             3: 'a refresh token was accepted or reported active after the owning client revoked the grant'},
+ 'title': 'Only live, server-issued access tokens are ever accepted as access tokens',
+ 'text': 'Theorems over the model: live_access_iff (for every reachable state of every history and every presented term, IntrospectionInfo - behind /introspect, TokenInfo and TokenInfoFromRequest - '
+         'reports an active access token IFF the term is exactly an issued access-token string whose grant the token index still finds and whose lifetime has not elapsed), forged_never_live, '
+         'jti_never_live, refresh_token_is_not_access, userinfo_needs_live_token (+ userinfo_token_id_is_classified), revoked_dead, other_client_cannot_revoke, token_index_unique. Correspondence: '
+         'histories with issuance in both formats, refresh, revocation by owner/other client, code replay, ticks and presentation of exact / jti-only / seven kinds of forged strings at the three '
+         'endpoints and two helpers, compared with the model; the monitor tracks, from the implementation trace alone, which tokens must be dead. Deterministic scenarios (scenarioAcceptorMatrix): '
+         'the four acceptors x {live, lifetime elapsed while the grant lives on, access token revoked, refresh token revoked, superseded by a refresh with and without rotation, grant expired, code '
+         'replayed} x {opaque, JWT} x storage flavour.',
+ 'note': 'All grant types: the jwt-bearer grant is in the sys model since the jwtbearer extension (Token.jwt_bearer_grant; tokens of authenticated and of the anonymous client, opaque and JWT), the '
+         "generator of suite c05 issues, refreshes, revokes and presents them like every other grant's (move jwtbearer). Theorems are about the hand-written model; JWS verification and the "
+         'UUID/length-99 shape tests are modelled symbolically (the classification by shape is checked on concrete strings by the correspondence). live_access_iff assumes histories shorter than 2^34 '
+         'operations (encoding of never-issued values). KNOWN FINDING K0 (see known_findings.json): revoking an already-expired access token answers 200 and leaves the refresh token of the grant '
+         'working - the last sentence of the property fails for that input on the unchanged tree; the c05 suite replays it on the real provider and reports it as KNOWN-FINDING.',
+ 'technique': 'Coq proof (equivalence over every reachable state, using the index-freshness invariant proved for every handler; per-request decision rules) tied to the code by differential '
+              'correspondence; monitor on implementation traces',
+ 'design_ref': 'DESIGN.md section 6, C05'}
